@@ -51,7 +51,8 @@
        by the sparse harness (commands DKA / DKF, shapes around the 8 x 8 / 16 x 16 blocking);
    NOT PROVED (executable and compared on every run only): the statement level C01SparseExec.v (which kernel an
    operator form calls: temporaries of the plain forms, `-=` as `+=` of (-1)*e, the defaulted copy assignment) - the
-   theorems are about the kernels and iterators it composes; prod(sparse matrix, vector), row/column proxies of
+   theorems are about the kernels and iterators it composes; prod(compressed matrix, dense vector) and its transposed
+   form are compared with the documented value only (the sparse gemv kernel is not modelled); row/column proxies of
    compressed matrices and sparse reductions are not modelled; the blocked PRODUCT kernels (gemm/gemv), OpenBLAS.
    Observations recorded by the sparse stream, not violations of the property as modelled: `x op= scalar` on a sparse
    target touches stored elements only (C01_sparse_scalar_stored_only); compressed = expression (sparse.hpp:131),
